@@ -18,13 +18,13 @@ import (
 func init() {
 	register(&PropDef{
 		ID: "C08", Level: "fault_enumeration", Quick: 1200, Thorough: 120000, QuickCap: 120, PerProc: 400,
-		Rule:   "each run = an admin+data program on the disk engine (create/delete/re-create tables, family create/update/drop with GC rules, MutateRow(s), ReadModifyWrite, DropRowRange prefix/all), optionally a second client on another table so that two requests are in flight, and 1-3 crash/restart cycles; the crash lands on a scheduling point drawn from the fault stream (thorough tier: for each program every crash index 0..191 of the first epoch is tried) or is a clean stop; the image is a byte copy of the directory taken while no file operation is in progress; the new server must start and serve the acknowledged state with every in-flight request wholly applied or wholly absent (MutateRows: a prefix of its entries); distinct = trace hash; non-trivial = the crash landed inside a request (not on a request boundary)",
+		Rule:   "each run = an admin+data program on the disk engine (create/delete/re-create tables, family create/update/drop with GC rules, MutateRow(s), ReadModifyWrite, DropRowRange prefix/all), optionally a second client on another table so that two requests are in flight, and 1-3 crash/restart cycles; the crash lands on a scheduling point drawn from the fault stream (thorough tier: for each program every crash index 0..191 of the first epoch is tried) or is a clean stop; the image is a byte copy of the directory taken while no file operation is in progress; the new server must start and serve the acknowledged state with every in-flight request wholly applied or wholly absent (MutateRows: a prefix of its entries); distinct = trace hash; non-trivial = the crash landed inside a request (not on a request boundary). A sixth of the quick runs (one program slot in 256 of the thorough tier) is the concurrent-administration sub-workload: 2-3 clients create, delete, re-create, change the schema of and write the SAME two tables under the seeded scheduler, every request acknowledged, then a kill between requests or a clean stop; the restarted emulator must serve exactly the state the old one served at that quiescent point",
 		Real:   []string{"bttest.NewServerWithOptions start-up (GetTables, Open), LeveldbDiskStorage (SetTableMeta tmp+rename, Create, DeleteTable, newDiskDb/RemoveAll), leveldbRows, goleveldb journal/manifest/table files on a real file system", "all admin and data handlers"},
 		Stub:   []string{"process kill = directory image at a scheduling point; the dead instance is drained and closed", "os.WriteFile / os.RemoveAll executed one system call at a time through the tagged fs* seams", "gRPC transport (direct calls)"},
 		Assume: []string{"process-kill semantics: every completed system call survives (no power loss / page-cache loss is claimed by the property)", "goleveldb background goroutines have no work at these data volumes; their file operations are nevertheless excluded from images in progress by a read/write lock"},
 		Run:    runC08,
 	})
-	expectedProbes["C08"] = []string{"c08.crash_inside_request", "c08.crash_boundary", "c08.clean_stop", "c08.crash_during_recovery", "c08.torn_write", "c08.inflight_applied", "c08.inflight_absent", "c08.crash_in_meta_write", "c08.crash_in_removeall", "c08.second_cycle", "c08.two_inflight"}
+	expectedProbes["C08"] = []string{"c08.crash_inside_request", "c08.crash_boundary", "c08.clean_stop", "c08.crash_during_recovery", "c08.torn_write", "c08.inflight_applied", "c08.inflight_absent", "c08.crash_in_meta_write", "c08.crash_in_removeall", "c08.second_cycle", "c08.two_inflight", "c08.concurrent_admin_restart_equal"}
 }
 
 type inflightOp struct {
@@ -267,6 +267,14 @@ func partialWitness(obs, snapshot *btModel, infl []inflightOp) string {
 
 func runC08(r *Run) {
 	cfg := r.T.S("cfg")
+	if r.Tier != "thorough" && (cfg.Intn(6) == 5 || (r.Index >= 4 && r.Index < 10)) {
+		c08ConcurrentAdmin(r, cfg)
+		return
+	}
+	if r.Tier == "thorough" && r.Index%64 == 63 && (r.Index/64)%4 == 0 {
+		c08ConcurrentAdmin(r, cfg)
+		return
+	}
 	fault := r.T.S("fault")
 	if r.Tier == "thorough" {
 		// 64 consecutive run indices share one program and differ in the crash point
